@@ -81,6 +81,8 @@ M = [
  ("x06_source_read_counts_request", "src/celma/common/read_buffer.hpp", "      P::sourceRead( data_read);", "      P::sourceRead( N - mDataEnd + data_read);"),
  ("x06_buffer_read_fast_path_missing", "src/celma/common/read_buffer.hpp", "      mDataStart += len;\n      P::bufferRead( len);\n      return;", "      mDataStart += len;\n      return;"),
  ("x06_source_reads_counted_once_per_fill", "src/celma/common/read_buffer.hpp", "      mDataEnd += data_read;\n      P::sourceRead( data_read);\n   } while ((mDataEnd - mDataStart) < min_length);", "      mDataEnd += data_read;\n   } while ((mDataEnd - mDataStart) < min_length);\n   P::sourceRead( mDataEnd - mDataStart);"),
+ ("c17_usage_block_indent_without_key_column_gap", "src/library/prog_args/detail/argument_desc.cpp", "format::TextBlock  tb( 2 * IndentLength + max_length, mLineLength, false);", "format::TextBlock  tb( IndentLength + max_length, mLineLength, false);"),
+ ("c17_usage_line_length_not_passed_two_line_mode", "src/library/prog_args/detail/argument_desc.cpp", "format::TextBlock  tb( 2 * IndentLength, mLineLength, true);", "format::TextBlock  tb( 2 * IndentLength, DefaultLineLength, true);"),
 ]
 root = os.path.dirname(os.path.dirname(os.path.abspath(__file__)))
 sel = sys.argv[1:]
